@@ -97,6 +97,45 @@ theorem serial_signal_general (ff : Bool) (pre post : List (Ground × Bool)) (g 
   have hj : judgeFile g = FileResult.cancelled := by simp [judgeFile, hsig]
   rw [this.2, hj]; simp
 
+/-- **Ctrl-C between two files, serial**: a signal that takes effect after the first `k` files are
+through leaves their results as they are, every later file is skipped, and the exit status is
+non-zero — also when `k` is the number of files (the signal arrives after the last file). -/
+theorem serial_signal_between (ff : Bool) (files : List Ground) (k : Nat) :
+    (runSerialSigBetween ff files k).results =
+      (runSerial ff ((files.take k).map (fun g => (g, false)))).results ++
+        (files.drop k).map (fun _ => FileResult.skipped) ∧
+    exitOk (runSerialSigBetween ff files k) = false := by
+  unfold runSerialSigBetween
+  have hfold : ∀ (l : List Ground) (st : SerialState),
+      l.foldl (fun st g => serialStep ff st (g, false)) st =
+        runSerialFrom ff st (l.map (fun g => (g, false))) := by
+    intro l
+    induction l with
+    | nil => intro st; rfl
+    | cons g rest ih => intro st; simp only [List.foldl_cons, List.map_cons, runSerialFrom_cons]; exact ih _
+  have hskip : ∀ (l : List Ground) (st : SerialState), st.cancelled = true →
+      (runSerialFrom ff st (l.map (fun g => (g, false)))).results =
+        st.results ++ l.map (fun _ => FileResult.skipped) ∧
+      (runSerialFrom ff st (l.map (fun g => (g, false)))).cancelled = true := by
+    intro l
+    induction l with
+    | nil => intro st hc; simp [hc]
+    | cons g rest ih =>
+      intro st hc
+      simp only [List.map_cons, runSerialFrom_cons]
+      have hstep : serialStep ff st (g, false) = { st with results := st.results ++ [.skipped] } := by
+        simp [serialStep, hc]
+      rw [hstep]
+      obtain ⟨h1, h2⟩ := ih { st with results := st.results ++ [.skipped] } hc
+      exact ⟨by rw [h1]; simp, h2⟩
+  rw [hfold, hfold, runSerial_eq]
+  obtain ⟨h1, h2⟩ := hskip (files.drop k)
+    { runSerialFrom ff {} ((files.take k).map (fun g => (g, false))) with cancelled := true } rfl
+  refine ⟨h1, ?_⟩
+  unfold exitOk
+  rw [h2]
+  simp
+
 /-- the report is always complete: one result per file, whenever the cancellation happens -/
 theorem serial_report_complete (ff : Bool) (files : List (Ground × Bool)) :
     (runSerial ff files).results.length = files.length := by
